@@ -128,6 +128,8 @@ UNORDERED = ("head=", "form=", "form=null", "frameset-ok=no", "ignore-lf")
 def body_atoms(body):
     out = set()
     for st in body:
+        if st == "close-p":
+            out.add("p-in-button-scope")
         if isinstance(st, tuple):
             out |= cond_atoms(st[1])
             out |= body_atoms(st[2])
@@ -139,6 +141,9 @@ def body_atoms(body):
 def run_body(body, val):
     out = []
     for st in body:
+        if st == "close-p":
+            # "if the stack of open elements has a p element in button scope, then close a p element"
+            st = ("if", "p-in-button-scope", ["close-p!"])
         if isinstance(st, tuple):
             c = st[1]
             v = cond_value(c.lstrip("!"), val)
@@ -463,7 +468,13 @@ def compare(cells, modes_in_code, report_ok, report_bad, notes=None):
                     trans = []
                     for conds, c in cps:
                         st = translate(c, mode, tok)
-                        if st is not None:
+                        if st is None:
+                            continue
+                        if "close-p" in st and "p-in-button-scope" not in conds:
+                            # the helper close_p_element_in_button_scope = the conditional paragraph of the standard
+                            trans.append((dict(conds, **{"p-in-button-scope": True}), canon(["close-p!" if x == "close-p" else x for x in st])))
+                            trans.append((dict(conds, **{"p-in-button-scope": False}), canon([x for x in st if x != "close-p"])))
+                        else:
                             trans.append((conds, canon(st)))
                 except Untranslated as e:
                     report_bad(key, "untranslated", "code action %s has no counterpart in the vocabulary of the standard's steps (extend lib/rowcmp.py deliberately)" % e)
